@@ -72,6 +72,62 @@ const wellFormed = "well-formed schemas (DESIGN 3.0.5): A1 built by the public c
 
 func init() {
 	register(&PropSpec{
+		ID: "C01",
+		Explanation: "Decided (structural parts of the round trip): R-DELEG - for every type with typed entry points each pair (XType, X) is a delegation on the same receiver, or both " +
+			"members consult every constraint field on all accepting paths; R-BOUNDFORM - the typed and untyped paths test the same quantity against the same bound in the " +
+			"same inclusive form; R-DYNTYPE - the non-error result of every Serialize / SerializeType is, by interprocedural dynamic-type provenance, a wire type " +
+			"(int64, float64, string, bool, []any, map[any]any, map[string]any; results produced by reflection are listed, not decided); R-ASSERT - the unchecked " +
+			"assertions in the typed wrappers are justified; R-SYMM - the one-of hands the member the data minus the discriminator on all operations (copy, only when not " +
+			"inlined), never accepts without the member's verdict, and re-attaches the discriminator to results; R-CONVSIB - the four native-to-wire converters share the " +
+			"CanConvert-guarded shape. NOT decided: value equality of round trips, idempotence, CBOR width normalisation, the treat-empty-as-default identification.",
+		Rules: []func(*Ctx){
+			func(c *Ctx) { c.ruleDeleg("R-DELEG") },
+			func(c *Ctx) { c.ruleBoundForm("R-BOUNDFORM") },
+			func(c *Ctx) { c.ruleWireTypes("R-DYNTYPE") },
+			func(c *Ctx) {
+				fns := map[*ssa.Function]bool{}
+				for _, f := range c.entryData("UnserializeType", "ValidateType", "SerializeType", "Serialize") {
+					fns[f] = true
+				}
+				c.ruleAssert("R-ASSERT", fns)
+				c.R.Floor("R-ASSERT", 8)
+			},
+			func(c *Ctx) { c.ruleOneOfSymm("R-SYMM") },
+			func(c *Ctx) { c.ruleConverters("R-CONVSIB") },
+		},
+	})
+	register(&PropSpec{
+		ID: "C03",
+		Explanation: "Decided: R-OBJ - the presence-rule evaluator is reached on every accepting path of ObjectSchema Unserialize / Validate / Serialize (map-based and struct-mapped " +
+			"branches); its set/unset dispatch, and the rejects for required, required_if, required_if_not and conflicts have the declared polarity; undeclared and non-string " +
+			"keys are rejected wherever supplied keys are walked; a value derived from GetDefaults() is stored only under a failed lookup of the same key (a supplied value is " +
+			"never overridden); a disabled property is never unserialized and the object code cannot bypass PropertySchema.Unserialize; the inline shorthand is guarded by " +
+			"len(properties) == 1 (R-MAPORDER/R-EXPLICIT in C04/C12); R-SYMM - one-of dispatch: the member's verdict decides on every operation, data is stripped of a " +
+			"non-inlined discriminator by copy, results get it back. NOT decided: the full truth table over interacting rule graphs and presence subsets.",
+		Rules: []func(*Ctx){
+			func(c *Ctx) { c.ruleObjectRules("R-OBJ") },
+			func(c *Ctx) { c.ruleOneOfSymm("R-SYMM") },
+			func(c *Ctx) { c.ruleErrDrop("R-ERRDROP", c.scopePkg("schema")) },
+		},
+	})
+	register(&PropSpec{
+		ID: "C02",
+		Explanation: "Decided: R-MUSTUSE - every declared constraint (json min, max, pattern, values) is read on every accepting path of Unserialize, Validate, Serialize and the typed " +
+			"variants of every schema type (interprocedural must-analysis over callees on the same receiver); R-BOUNDFORM - each comparison with a bound is the inclusive form " +
+			"(reject iff q < min / q > max), its violating branch returns an error, the measured quantity is the value (numbers) or its length (sized kinds) and all " +
+			"comparisons of one type agree on it; float tests exclude NaN; R-NARROW - lossy conversions to int64 in the input mappers are range- or round-trip-guarded; " +
+			"R-MEMBER - enum acceptance is controlled by equality with a table key, a failed pattern match rejects; R-BOOLWORDS - the fourteen documented words with their " +
+			"polarity; R-ERRDROP - no error of a repo call is discarded. NOT decided: that the lenient conversions denote the right number; unit arithmetic (C16).",
+		Rules: []func(*Ctx){
+			func(c *Ctx) { c.ruleBoundForm("R-BOUNDFORM") },
+			func(c *Ctx) { c.ruleMustUse("R-MUSTUSE") },
+			func(c *Ctx) { c.ruleNarrow("R-NARROW") },
+			func(c *Ctx) { c.ruleMember("R-MEMBER") },
+			func(c *Ctx) { c.ruleBoolWords("R-BOOLWORDS") },
+			func(c *Ctx) { c.ruleErrDrop("R-ERRDROP", c.scopePkg("schema")) },
+		},
+	})
+	register(&PropSpec{
 		ID: "C04",
 		Explanation: "Decided: no reachable unguarded panic site of three classes in the functions reachable from Unserialize/Validate/Serialize/ValidateCompatibility " +
 			"(and typed variants) of all Serializable implementers, outside recover scopes - R-ASSERT: every single-value type assertion is justified by dynamic-type " +
